@@ -292,6 +292,7 @@ def parseFn : List String → Option (UInt64 → Bool → FnRes UInt64)
   | ["add", n] => (u64? n).map fun n => fun cur _ => .ok (cur + n)
   | ["nc"] => some fun _ _ => .notChanged
   | ["fail"] => some fun _ _ => .fail
+  | ["boom"] => some fun _ _ => .fail      -- the function panics: for the object a failure of the function (driver prints `boom`)
   | ["ncx", n] => (u64? n).map fun n => fun _ ex => if ex then .notChanged else .ok n
   | ["failx", n] => (u64? n).map fun n => fun _ ex => if ex then .fail else .ok n
   | ["incx", n] => (u64? n).map fun n => fun cur ex => if ex then .ok (cur + 1) else .ok n
